@@ -25,6 +25,7 @@ PROP = "C29"
 LABELS = ["G", "GAMMA", "X", "M", "K", "L", "W", "U", "A", "H", "R", "Z", "S_0", "A1", "Y", "", "", "0", "$\\Gamma$", " "]   # incl. unnamed nodes
 HS = np.array([0.0, 0.5, 1 / 3, 2 / 3, 0.25, 0.75, 1.0, -0.5])
 GAP_GUARD = 1e-3  # band-resolved non-scalar quantities are compared only where all gaps exceed this
+PENDING = os.environ.get("VERIF_C29_PENDING", "") == "1"   # classes that fire on the unchanged tree (reported, undecided)
 LEAK_MECH = "evaluate_k_path(ibands)_leaves_ibands_in_available_quantities"
 
 
@@ -39,10 +40,14 @@ def recip_of(real_lattice):
 
 # ------------------------------------------------------------------ generators ----------------
 
-def gen_nodes(rng, maxnodes=6, allow_gshift=True):
-    nn = int(rng.integers(2, maxnodes + 1))
+NODE_FORMS = ("list", "array", "tuple", "int", "2darray", "mixed")
+
+
+def gen_nodes(rng, maxnodes=6, allow_gshift=True, minnodes=2):
+    nn = int(rng.integers(minnodes, maxnodes + 1))
     pts = []
-    flags = dict(revisit=False, gshift=False)
+    form = "list" if rng.random() < 0.3 else ("array" if rng.random() < 0.4 else NODE_FORMS[int(rng.integers(len(NODE_FORMS)))])
+    flags = dict(revisit=False, gshift=False, form=form)
     for i in range(nn):
         u = rng.random()
         if i > 0 and u < 0.15:
@@ -54,22 +59,40 @@ def gen_nodes(rng, maxnodes=6, allow_gshift=True):
                 G[int(rng.integers(3))] = 1
             p = pts[int(rng.integers(i))] + G
             flags["gshift"] = True
+        elif form == "int":
+            p = rng.integers(-1, 3, 3)   # nodes written as plain integers ([0, 0, 0], [1, 0, 0])
         elif u < 0.6:
             p = HS[rng.integers(len(HS), size=3)]
         else:
             p = rng.uniform(-1.0, 1.5, 3)
         pts.append(np.array(p, dtype=float))
+    if form == "2darray":
+        return np.array(pts), flags   # one (n,3) array: no breaks possible
     nodes = []
     if rng.random() < 0.12:
         nodes.append(None)
-    aslist = rng.random() < 0.5
     for i, p in enumerate(pts):
-        nodes.append([float(x) for x in p] if aslist else p.copy())
+        f = form if form != "mixed" else ("list", "array", "tuple")[int(rng.integers(3))]
+        if f == "int":
+            nodes.append([int(round(x)) for x in p])
+        elif f == "list":
+            nodes.append([float(x) for x in p])
+        elif f == "tuple":
+            nodes.append(tuple(float(x) for x in p))
+        else:
+            nodes.append(p.copy())
         if i < nn - 1 and rng.random() < 0.25:
             nodes.append(None)
             if rng.random() < 0.15:
                 nodes.append(None)
     return nodes, flags
+
+
+def copy_nodes(nodes):
+    """an independent copy of a node list in the same form (the library must not see the harness's own objects)"""
+    if isinstance(nodes, np.ndarray):
+        return nodes.copy()
+    return [None if n is None else (n.copy() if isinstance(n, np.ndarray) else type(n)(n)) for n in nodes]
 
 
 def split_runs(nodes):
@@ -94,29 +117,42 @@ def segment_lengths(nodes, recip):
     return out
 
 
-def gen_spec(rng, nodes, recip, maxpts):
+def gen_spec(rng, nodes, recip, maxpts, big=False):
     """returns (kwargs for from_nodes, number of points per real segment, kind) - or None on a rounding tie"""
     L = segment_lengths(nodes, recip)
     nseg = len(L)
     kind = ["nk_int", "nk_list", "dk", "length"][int(rng.integers(4))]
     nmax = int(max(2, min(9, maxpts // max(1, nseg))))
+    if big:
+        nmax = int(max(100, maxpts // max(1, nseg)))   # segments of >= 100 points
     if kind == "nk_int":
-        n = int(rng.integers(2, nmax + 1))
-        return dict(nk=n), [n] * nseg, kind
+        n = int(rng.integers(100 if big else 2, nmax + 1))
+        nk = n if rng.random() < 0.7 else np.int64(n)
+        return dict(nk=nk), [n] * nseg, kind
     if kind == "nk_list":
         ns = [int(x) for x in rng.integers(2, nmax + 1, size=nseg)]
-        form = int(rng.integers(3))
-        nk = ns if form == 0 else (tuple(ns) if form == 1 else np.array(ns, dtype=int))
+        if big and nseg:
+            ns[int(rng.integers(nseg))] = int(rng.integers(100, nmax + 1))
+        form = int(rng.integers(4))
+        nk = ns if form == 0 else (tuple(ns) if form == 1 else (np.array(ns, dtype=int) if form == 2 else iter(list(ns))))
         return dict(nk=nk), ns, kind
     Lpos = [x for x in L if x > 1e-9]
     Lref = float(np.mean(Lpos)) if Lpos else 1.0
     u = rng.random()
-    if u < 0.25 and Lpos:
+    if big:
+        dk = Lref / rng.uniform(100, nmax)
+    elif u < 0.25 and Lpos:
         dk = Lpos[int(rng.integers(len(Lpos)))] / int(rng.integers(1, nmax))  # a segment is an exact multiple of dk
     elif u < 0.35:
         dk = Lref * rng.uniform(2.5, 10.0)  # longer than every segment: two points per segment
     else:
         dk = Lref / rng.uniform(0.7, nmax - 0.5)
+    length = None
+    if kind == "length":
+        length = float(2 * np.pi / dk)
+        if rng.random() < 0.4 and length >= 1.5:
+            length = int(round(length))    # `length` written as an integer number of angstroms
+            dk = 2 * np.pi / length
     ns = []
     for x in L:
         r = x / dk
@@ -127,7 +163,7 @@ def gen_spec(rng, nodes, recip, maxpts):
         return None
     if kind == "dk":
         return dict(dk=float(dk)), ns, kind
-    return dict(length=float(2 * np.pi / dk)), ns, kind
+    return dict(length=length), ns, kind
 
 
 def expected_path(nodes, labels, seg_npts):
@@ -233,35 +269,73 @@ def refined_expectation(K, lab, br, f):
     return Kn, {new[i]: l for i, l in lab.items()}, [new[b] for b in br], new
 
 
-def construction_subcase(ctx, rng, wbPath, lattice, recip, how, system=None, maxpts=60, allow_gshift=True):
+def documented_errors(ctx, rng, wbPath, lattice, nodes):
+    """combinations that Path.from_nodes documents as errors must be refused (not silently resolved in favour of one)"""
+    combos = [dict(nk=3, dk=0.1), dict(length=30.0, dk=0.1), dict(length=30.0, nk=3), dict(nk=[3] * 40, dk=0.2)]
+    kw = combos[int(rng.integers(len(combos)))]
+    ctx.ev()
+    try:
+        wbPath.from_nodes(real_lattice=lattice, nodes=copy_nodes(nodes), **kw)
+    except ValueError:
+        ctx.count("contradicting_spec_refused")
+        return
+    ctx.violation("from_nodes:contradicting_spec_accepted", f"from_nodes accepted {sorted(kw)} together",
+                  dict(spec=kw))
+
+
+def construction_subcase(ctx, rng, wbPath, lattice, recip, how, system=None, maxpts=60, allow_gshift=True, big=False,
+                         maxnodes=6, minnodes=2):
     """one generated node list -> from_nodes, Kline, refinement.  returns (path, K_exp, lab_exp, br_exp, info)"""
     for _ in range(8):
-        nodes, flags = gen_nodes(rng, allow_gshift=allow_gshift)
-        spec = gen_spec(rng, nodes, recip, maxpts)
+        nodes, flags = gen_nodes(rng, allow_gshift=allow_gshift, maxnodes=maxnodes, minnodes=minnodes)
+        spec = gen_spec(rng, nodes, recip, maxpts, big=big)
         if spec is not None:
             break
     else:
         raise harness.Skip("tie:dk_rounding")
     kw, seg_npts, kind = spec
     nreal = sum(1 for n in nodes if n is not None)
+    lform = "none"
     if rng.random() < 0.25:
         labels_arg, labels = None, [str(i + 1) for i in range(nreal)]
     else:
         labels = [LABELS[int(rng.integers(len(LABELS)))] for _ in range(nreal)]
-        labels_arg = list(labels)
+        lform = ("list", "list", "tuple", "array", "iter")[int(rng.integers(5))]
+        labels_arg = list(labels) if lform == "list" else (tuple(labels) if lform == "tuple" else (
+            np.array(labels, dtype=object) if lform == "array" else iter(list(labels))))
+    pg_src = None
+    if how == "pointgroup":
+        pg_src = wbPath(real_lattice=np.array(lattice), k_list=[[0.0, 0.0, 0.0]]).pointgroup
     src = dict(system=system) if how == "system" else (
-        dict(real_lattice=lattice) if how == "real_lattice" else dict(recip_lattice=recip))
-    nodes_in = [None if n is None else (list(n) if isinstance(n, list) else n.copy()) for n in nodes]
+        dict(real_lattice=lattice) if how == "real_lattice" else (
+            dict(pointgroup=pg_src) if how == "pointgroup" else dict(recip_lattice=recip)))
+    nodes_in = copy_nodes(nodes)
     path = wbPath.from_nodes(nodes=nodes_in, labels=labels_arg, **src, **kw)
     ctx.count("path_from_nodes")
     ctx.count(f"spec_{kind}")
+    ctx.count(f"nodes_{flags['form']}")
+    ctx.count(f"labels_{lform}")
+    ctx.count(f"lattice_from_{how}")
+    if isinstance(kw.get("length"), int):
+        ctx.count("spec_length_int")
+    if max(seg_npts, default=0) >= 100:
+        ctx.count("segment_ge_100_points")
     K_exp, lab_exp, br_exp = expected_path(nodes, labels, seg_npts)
     nbreaks = len(br_exp)
-    wit = dict(nodes=[None if n is None else [float(x) for x in n] for n in nodes], labels=labels_arg,
-               spec={k: (v.tolist() if isinstance(v, np.ndarray) else v) for k, v in kw.items()},
+    wit = dict(nodes=[None if n is None else [float(x) for x in n] for n in nodes], node_form=flags["form"],
+               labels=None if labels_arg is None else list(labels), label_form=lform,
+               spec={k: (list(seg_npts) if k == "nk" and not isinstance(v, (int, np.integer)) else (
+                   int(v) if isinstance(v, np.integer) else v)) for k, v in kw.items()},
                lattice_from=how, real_lattice=np.array(lattice))
     ctx.close("Path.recip_lattice", path.recip_lattice, recip, rtol=1e-12, what="recip lattice", witness=wit)
     ok = verify_path(ctx, path, K_exp, lab_exp, br_exp, recip, "from_nodes", wit)
+    # the caller's node list is not modified
+    ctx.ev()
+    same = all((a is None and b is None) or (a is not None and b is not None and np.array_equal(np.asarray(a), np.asarray(b)))
+               for a, b in zip(nodes_in, nodes)) and len(nodes_in) == len(nodes)
+    if not same:
+        ok = False
+        ctx.violation("from_nodes:modifies_the_node_list_of_the_caller", "nodes changed by from_nodes", wit)
     if nbreaks:
         ctx.count("breaks", nbreaks)
     if flags["revisit"]:
@@ -270,9 +344,22 @@ def construction_subcase(ctx, rng, wbPath, lattice, recip, how, system=None, max
         ctx.count("gshift_paths")
     if not ok:
         return None
+    # the two documented accessors of the points
+    cs = max(1.0, float(np.abs(K_exp).max()))
+    ctx.close("get_kpoints!=K_list", path.get_kpoints(), K_exp, rtol=0, atol=1e-12 * cs, what="get_kpoints", witness=wit)
+    ctx.close("get_kpoints_cart!=K_list@recip", path.get_kpoints_cart(), K_exp @ recip, rtol=0,
+              atol=1e-12 * cs * float(np.abs(recip).max()), what="get_kpoints_cart", witness=wit)
+    ctx.count("get_kpoints")
     verify_kline_thresh(ctx, rng, path, K_exp, br_exp, recip, "from_nodes", wit)
+    if rng.random() < 0.15:
+        documented_errors(ctx, rng, wbPath, lattice, nodes)
     # the batches handed to the evaluation: all points once, in path order, at most k_batch per batch
     kb = int(rng.integers(1, 51)) if rng.random() < 0.5 else int(rng.integers(1, len(K_exp) + 2))
+    if rng.random() < 0.2 and len(K_exp) >= 4:
+        divs = [d for d in range(2, len(K_exp)) if len(K_exp) % d == 0]
+        if divs:
+            kb = int(divs[int(rng.integers(len(divs)))])    # the number of points is a multiple of the batch size
+            ctx.count("npts_multiple_of_k_batch")
     batches = path.get_K_list(k_batch=kb)
     sizes = [len(np.atleast_2d(b.Kp_fullBZ)) for b in batches]
     ctx.ev()
@@ -282,14 +369,69 @@ def construction_subcase(ctx, rng, wbPath, lattice, recip, how, system=None, max
         ctx.close("get_K_list:batches!=K_list_in_order", np.vstack([np.atleast_2d(b.Kp_fullBZ) for b in batches]),
                   np.asarray(path.K_list), rtol=0, atol=0, what=f"k_batch={kb}", witness=wit)
     ctx.count("get_K_list")
-    info =dict(kind=kind, nnodes=nreal, nbreaks=nbreaks, npts=len(K_exp), **flags)
+    info = dict(kind=kind, nnodes=nreal, nbreaks=nbreaks, npts=len(K_exp), **flags)
     return path, K_exp, lab_exp, br_exp, info, wit
 
 
+def rebuilt_path(ctx, rng, wbPath, path, K_exp, lab_exp, br_exp, recip, wit):
+    """the same path reached through another public route (explicit k-list, dict or npz round trip); returns (path, tag)"""
+    import tempfile
+    import shutil
+    route = ("k_list", "dict", "npz", "npz_twice")[int(rng.integers(4))]
+    if route == "k_list":
+        kl = K_exp.copy() if rng.random() < 0.5 else [[float(x) for x in k] for k in K_exp]
+        keyt = (int, np.int64)[int(rng.integers(2))]
+        labs = {keyt(i): l for i, l in lab_exp.items()}
+        u = rng.random()
+        brs = list(br_exp) if u < 0.4 else (tuple(br_exp) if u < 0.6 else np.array(br_exp, dtype=int))
+        if isinstance(brs, tuple):
+            # open finding (witnesses/review_c29_finding_1.py): getKline indexes with `breaks`; a tuple of >= 2 breaks raises
+            ctx.count("breaks_given_as_tuple")
+        src = dict(recip_lattice=recip.copy()) if rng.random() < 0.5 else dict(pointgroup=path.pointgroup)
+        new = wbPath(k_list=kl, labels=labs, breaks=brs, **src)
+    elif route == "dict":
+        new = wbPath.from_dict(path.as_dict())
+    else:
+        d = tempfile.mkdtemp(prefix="c29_", dir="/tmp")
+        try:
+            f = os.path.join(d, "path.npz")
+            path.to_npz(f)
+            new = wbPath.from_npz(f)
+            if route == "npz_twice":
+                f2 = os.path.join(d, "path2.npz")
+                new.to_npz(f2)
+                new = wbPath.from_npz(f2)
+        finally:
+            shutil.rmtree(d, ignore_errors=True)
+    ctx.count(f"rebuilt_{route}")
+    w = dict(wit, rebuilt_through=route)
+    ctx.close(f"rebuilt({route}):recip_lattice", new.recip_lattice, recip, rtol=1e-12, what="recip lattice", witness=w)
+    ok = verify_path(ctx, new, K_exp, lab_exp, br_exp, recip, f"rebuilt({route})", w)
+    return (new, route, w) if ok else None
+
+
 def refinement_subcase(ctx, rng, path, K_exp, lab_exp, br_exp, recip, wit):
-    f = int(rng.integers(2, 6))
-    ref = path.get_refined(factor=f)
+    u = rng.random()
+    if u < 0.08:
+        f, ref = 1, path.get_refined(factor=1)          # nothing to insert: the same path
+        ctx.count("refined_factor_1")
+    elif u < 0.16:
+        f, ref = 2, path.get_refined()                   # documented default
+        ctx.count("refined_default_factor")
+    elif u < 0.24:
+        f = int(rng.integers(2, 6))
+        ref = path.get_refined(np.int64(f))
+        ctx.count("refined_positional_npint")
+    elif u < 0.30:
+        f = int(rng.integers(6, 41))                      # large factors
+        ref = path.get_refined(factor=f)
+        ctx.count("refined_large_factor")
+    else:
+        f = int(rng.integers(2, 6))
+        ref = path.get_refined(factor=f)
     ctx.count("path_refined")
+    # the path that was refined is still the same path
+    verify_path(ctx, path, K_exp, lab_exp, br_exp, recip, "original_after_get_refined", dict(wit, factor=f))
     Kn, labn, brn, new = refined_expectation(K_exp, lab_exp, br_exp, f)
     w = dict(wit, factor=f)
     ok = verify_path(ctx, ref, Kn, labn, brn, recip, "get_refined", w)
@@ -314,12 +456,16 @@ def refinement_subcase(ctx, rng, path, K_exp, lab_exp, br_exp, recip, wit):
 
 # ------------------------------------------------------------------ seekpath ------------------
 
-def gen_cell(rng):
+def gen_cell(rng, kind=None):
     a = float(rng.uniform(2.5, 6.0))
     c = a * float(rng.uniform(1.2, 1.8))
-    kind = ["cubic", "fcc", "bcc", "hexagonal", "tetragonal"][int(rng.integers(5))]
-    lat = np.array(gen_systems.BRAVAIS[kind](a, a, c), dtype=float)
-    two = rng.random() < 0.5
+    kinds = ["cubic", "fcc", "bcc", "hexagonal", "tetragonal", "orthorhombic", "bct", "monoclinic"]
+    kind = kinds[int(rng.integers(len(kinds)))] if kind is None else kind
+    b = a if kind not in ("orthorhombic", "monoclinic") else a * float(rng.uniform(1.25, 1.45))
+    if kind in ("orthorhombic", "monoclinic"):
+        c = a * float(rng.uniform(1.6, 1.9))
+    lat = np.array(gen_systems.BRAVAIS[kind](a, b, c), dtype=float)
+    two = rng.random() < 0.5 and kind not in ("orthorhombic", "bct", "monoclinic")
     if not two:
         pos, num = [[0.0, 0.0, 0.0]], [1]
     elif kind == "cubic":
@@ -339,7 +485,8 @@ def gen_cell(rng):
 def seekpath_subcase(ctx, rng, wbPath, maxpts=150):
     import seekpath as sp
     kind, a, lat, pos, num = gen_cell(rng)
-    wtr = bool(rng.random() < 0.7)
+    defaults = bool(rng.random() < 0.15)      # documented defaults: dk=0.05, with_time_reversal=True
+    wtr = True if defaults else bool(rng.random() < 0.7)
     recip = recip_of(lat)
     out = sp.get_path_orig_cell((lat, pos, num), with_time_reversal=wtr)
     coords = {k: np.array(v, dtype=float) for k, v in out["point_coords"].items()}
@@ -355,15 +502,24 @@ def seekpath_subcase(ctx, rng, wbPath, maxpts=150):
         nodes += [coords[x] for x in r]
         labels += list(r)
     L = segment_lengths(nodes, recip)
-    dk = float(sum(L) / rng.uniform(12, maxpts))
+    dk = 0.05 if defaults else float(sum(L) / rng.uniform(12, maxpts))
     ns = []
     for x in L:
         r = x / dk
         if abs(r - np.floor(r) - 0.5) < 1e-6:
             raise harness.Skip("tie:dk_rounding")
         ns.append(max(2, int(np.floor(r + 0.5)) + 1))
-    if rng.random() < 0.5:
+    u = rng.random()
+    if defaults:
+        path = wbPath.seekpath((lat.tolist(), pos.tolist(), num.tolist())) if u < 0.5 else wbPath.seekpath(
+            lattice=lat, positions=pos, numbers=num)
+        ctx.count("seekpath_default_dk")
+    elif u < 0.4:
         path = wbPath.seekpath(cell=(lat, pos, num), dk=dk, with_time_reversal=wtr)
+    elif u < 0.6:
+        path = wbPath.seekpath(cell=[lat.tolist(), pos.tolist(), [int(x) for x in num]], dk=dk, with_time_reversal=wtr,
+                               twoD_direction=None)
+        ctx.count("seekpath_cell_as_lists")
     else:
         path = wbPath.seekpath(lattice=lat, positions=pos, numbers=num, dk=dk, with_time_reversal=wtr)
     ctx.count("seekpath")
@@ -377,6 +533,79 @@ def seekpath_subcase(ctx, rng, wbPath, maxpts=150):
         if len(br_exp):
             ctx.count("seekpath_with_breaks")
     return (path, K_exp, lat, kind) if ok else None
+
+
+def seekpath_flat_subcase(ctx, rng, wbPath, maxpts=120):
+    """Path.seekpath(twoD_direction=d): the band path of a layered cell drawn in the plane k_d = 0.  Judged without the
+    library's own ordering: every point lies in the plane, every label sits at the seekpath coordinates of that name, the set
+    of (undirected) segments equals the set of in-plane projections of the seekpath segments (vertical ones dropped), each once,
+    and every segment is sampled uniformly with the documented number of points."""
+    import seekpath as sp
+    kind = ("hexagonal", "tetragonal", "cubic", "orthorhombic")[int(rng.integers(4))]
+    kind, a, lat, pos, num = gen_cell(rng, kind=kind)
+    d = 2 if kind != "orthorhombic" else int(rng.integers(3))   # the stacking axis of a layered cell
+    wtr = bool(rng.random() < 0.7)
+    recip = recip_of(lat)
+    out = sp.get_path_orig_cell((lat, pos, num), with_time_reversal=wtr)
+    coords = {k: np.array(v, dtype=float) for k, v in out["point_coords"].items()}
+    inplane = {k: v for k, v in coords.items() if abs(v[d]) < 1e-7}
+
+    def project(name):
+        v = coords[name].copy()
+        v[d] = 0.0
+        hits = [k for k, w in inplane.items() if np.linalg.norm(w - v) < 1e-7]
+        return hits[0] if len(hits) == 1 else None
+    want = set()
+    for s0, s1 in out["path"]:
+        p0, p1 = project(s0), project(s1)
+        if p0 is None or p1 is None:
+            raise harness.Skip("seekpath: a node has no unique in-plane counterpart")
+        if p0 != p1:
+            want.add(frozenset((p0, p1)))
+    dk = float(rng.uniform(0.03, 0.3))
+    path = wbPath.seekpath(cell=(lat, pos, num), dk=dk, with_time_reversal=wtr, twoD_direction=d)
+    ctx.count("seekpath_twoD")
+    wit = dict(cell=kind, a=a, lattice=lat, positions=pos, numbers=num, dk=dk, with_time_reversal=wtr, twoD_direction=d,
+               seekpath_segments=[list(x) for x in out["path"]])
+    K = np.asarray(path.K_list, dtype=float)
+    ctx.ev()
+    if np.abs(K[:, d]).max() > 1e-12:
+        ctx.violation("seekpath(twoD):points_outside_the_plane", f"max |k_{d}| = {np.abs(K[:, d]).max()}", wit)
+        return
+    lab = {int(k): str(v) for k, v in dict(path.labels).items()}
+    brs = set(int(x) for x in path.breaks)
+    idx = sorted(lab)
+    ctx.ev()
+    bad = [(i, lab[i]) for i in idx if lab[i] not in inplane or np.abs(K[i] - inplane[lab[i]]).max() > 1e-12]
+    if bad or not idx or idx[0] != 0 or idx[-1] != len(K) - 1:
+        ctx.violation("seekpath(twoD):label_not_at_its_seekpath_point", f"labels {lab}: wrong {bad}", wit)
+        return
+    runs = [[idx[0]]]
+    for i0, i1 in zip(idx, idx[1:]):
+        if i0 in brs:
+            runs.append([i1])
+        else:
+            runs[-1].append(i1)
+    got = [frozenset((lab[i0], lab[i1])) for r in runs for i0, i1 in zip(r, r[1:])]
+    ctx.ev()
+    if set(got) != want or len(got) != len(set(got)) or any(len(x) != 2 for x in got):
+        ctx.violation("seekpath(twoD):segments!=in_plane_projections_of_seekpath_segments",
+                      f"segments {[sorted(x) for x in got]} expected (any order) {[sorted(x) for x in want]}", wit)
+        return
+    nodes, labels = [], []
+    for r in runs:
+        nodes.append(None)
+        nodes += [inplane[lab[i]] for i in r]
+        labels += [lab[i] for i in r]
+    ns = []
+    for x in segment_lengths(nodes, recip):
+        r = x / dk
+        if abs(r - np.floor(r) - 0.5) < 1e-6:
+            raise harness.Skip("tie:dk_rounding")
+        ns.append(max(2, int(np.floor(r + 0.5)) + 1))
+    K_exp, lab_exp, br_exp = expected_path(nodes, labels, ns)
+    if verify_path(ctx, path, K_exp, lab_exp, br_exp, recip, "seekpath(twoD)", wit):
+        ctx.nontrivial(("seekpath_twoD", kind, d, len(num), wtr, len(want), len(br_exp)))
 
 
 # ------------------------------------------------------------------ tabulation ----------------
@@ -443,6 +672,109 @@ def compare_tab(ctx, res, oracle, K, system, ibands, good, a0, tag, wit):
         ctx.count("tab_rows_vs_evaluate_k", int(sel.sum()))
 
 
+COMPONENTS = {1: ["x", "y", "z", (0,), (2,), "norm"], 2: ["xx", "xy", "zy", "yz", (0, 2), (1, 1), "trace"],
+              3: ["xyz", "zzx", (2, 0, 1)]}
+
+
+def component_of(arr, comp):
+    """the documented meaning of `component`, from the full tensor (axes after (k, band))"""
+    if comp == "norm":
+        return np.linalg.norm(arr, axis=-1)
+    if comp == "trace":
+        return np.trace(arr, axis1=-2, axis2=-1)
+    ind = tuple("xyz".index(c) for c in comp) if isinstance(comp, str) else tuple(comp)
+    return arr[(Ellipsis,) + ind]
+
+
+def get_data_subcase(ctx, rng, res, oracle, K, good, a0, wit):
+    """TABresult.get_data(quantity, iband=..., component=...) on a path result: a selection of what get_data(quantity) gives"""
+    nb = int(res.nband)
+    for q, ref in oracle.items():
+        if rng.random() < 0.6:
+            continue
+        rank = ref.ndim - 2
+        u = rng.random()
+        if u < 0.3:
+            ib = int(rng.integers(nb))
+        elif u < 0.6:
+            ib = [int(x) for x in rng.permutation(nb)[:int(rng.integers(1, nb + 1))]]
+        elif u < 0.8:
+            ib = np.array(sorted(int(x) for x in rng.choice(nb, int(rng.integers(1, nb + 1)), replace=False)))
+        else:
+            ib = None
+        comp = None
+        if rank >= 1 and rng.random() < 0.7:
+            c = COMPONENTS[rank]
+            comp = c[int(rng.integers(len(c)))]
+        got = np.asarray(res.get_data(q, iband=ib, component=comp))
+        exp = ref if comp is None else component_of(ref, comp)
+        exp = exp if ib is None else exp[:, ib]
+        sel = np.ones(len(K), dtype=bool) if rank == 0 else good
+        w = dict(wit, get_data=dict(quantity=q, iband=ib if not isinstance(ib, np.ndarray) else ib.tolist(), component=comp))
+        ctx.ev()
+        if got.shape != exp.shape:
+            ctx.violation("get_data(iband,component)!=selection_of_the_rows", f"{q}: shape {got.shape} expected {exp.shape}", w)
+            continue
+        if not np.any(sel):
+            continue
+        ctx.close("get_data(iband,component)!=selection_of_the_rows", got[sel], exp[sel], rtol=1e-9,
+                  scale=float(np.abs(ref[sel]).max()), atol=1e-9 * a0 ** NATURAL[q], what=f"{q} iband={ib} component={comp}",
+                  witness=w)
+        ctx.count("get_data_iband_component")
+
+
+def second_request_subcase(ctx, rng, state, system, path, K, res, tabs, oracle, ibands, ibands_arg, good, a0, has_AA, wit):
+    """the same path object, and the same tabulator objects, used for a second request; what the first request returned
+    must stay what it was"""
+    wb = state["wb"]
+    from wannierberri.calculators import tabulate as tab
+    from wannierberri.grid import Path
+    snap = {q: np.array(res.get_data(q)) for q in oracle}
+    snapE = np.array(res.get_data("Energy"))
+    snapK = np.array(res.kpoints)
+    K0 = np.array(path.K_list)
+    lab0, br0 = (dict(path.labels) if isinstance(path.labels, dict) else list(path.labels)), [int(b) for b in path.breaks]
+    npts = len(K)
+    kb2 = int(rng.integers(1, npts + 2))
+    u = rng.random()
+    mytabs = {k: v for k, v in (tabs or {}).items() if k in oracle}
+    if u < 0.5 and mytabs:
+        # the user's tabulator objects again (they carry the band set of the first request), other k_batch
+        if rng.random() < 0.5 and npts >= 4:
+            i0 = int(rng.integers(0, npts - 2))
+            i1 = int(rng.integers(i0 + 2, npts + 1))
+            sub, rows = Path(system, k_list=K[i0:i1][::-1].copy()), np.arange(i0, i1)[::-1]   # walked backwards
+        else:
+            sub, rows = path, np.arange(npts)
+        res2 = wb.evaluate_k_path(system, path=sub, tabulators=mytabs, ibands=ibands_arg, parallel=False, k_batch=kb2)
+        orc2 = {q: oracle[q][rows] for q in mytabs}
+        compare_tab(ctx, res2, orc2, K[rows], system, ibands, good[rows], a0, "second_request(same tabulator objects)",
+                    dict(wit, second=dict(k_batch=kb2, rows=rows.tolist())))
+        ctx.count("second_request_same_tabulators")
+    else:
+        # the same path, other quantities / bands / batch size
+        nw = system.num_wann
+        ib2 = None
+        if nw > 1 and rng.random() < 0.6:
+            ib2 = sorted(int(x) for x in rng.choice(nw, int(rng.integers(1, nw)), replace=False))
+        names2 = ["energy", "band_gradients"]
+        res2 = wb.evaluate_k_path(system, path=path, quantities=names2, ibands=ib2, parallel=False, k_batch=kb2)
+        orc2 = pointwise_oracle(wb, tab, system, K, names2, ib2, has_AA)
+        compare_tab(ctx, res2, orc2, K, system, ib2, good, a0, "second_request(same path)",
+                    dict(wit, second=dict(k_batch=kb2, ibands=ib2, quantities=names2)))
+        ctx.count("second_request_same_path")
+    # values returned earlier stay valid
+    ok = all(np.array_equal(np.asarray(res.get_data(q)), snap[q]) for q in snap) and np.array_equal(
+        np.asarray(res.get_data("Energy")), snapE) and np.array_equal(np.asarray(res.kpoints), snapK)
+    ctx.ev()
+    if not ok:
+        ctx.violation("second_request:changes_the_result_returned_by_the_first", "data of the first TABresult changed", wit)
+    ctx.ev()
+    if not (np.array_equal(np.asarray(path.K_list), K0) and (dict(path.labels) if isinstance(path.labels, dict) else list(path.labels)) == lab0 and [int(b) for b in path.breaks] == br0):
+        ctx.violation("path_tabulation:changes_the_path", "K_list / labels / breaks of the path changed by the evaluation", wit)
+    ctx.count("first_result_still_valid")
+
+
 def tabulation_subcase(ctx, rng, state, system, path, K, info, wit0, has_AA):
     wb = state["wb"]
     from wannierberri.calculators import tabulate as tab
@@ -466,9 +798,24 @@ def tabulation_subcase(ctx, rng, state, system, path, K, info, wit0, has_AA):
     if not names and not extras:
         names = ["band_gradients"]
     ibands = None
-    if nw > 1 and rng.random() < 0.4:
+    ibands_arg = None
+    if nw > 1 and rng.random() < 0.45:
         nb = int(rng.integers(1, nw))
         ibands = sorted(int(x) for x in rng.choice(nw, nb, replace=False))
+        ibands_arg = list(ibands)
+        u = rng.random()
+        if u < 0.25 and nw > 2:
+            # any order (documented nowhere as sorted): column j of the result is band ibands[j]
+            nb = int(rng.integers(2, nw + 1))
+            ibands = [int(x) for x in rng.permutation(nw)[:nb]]
+            ibands_arg = list(ibands)
+            ctx.count("ibands_unsorted" if ibands != sorted(ibands) else "ibands_sorted_by_chance")
+        elif u < 0.4:
+            ibands_arg = tuple(ibands)
+            ctx.count("ibands_tuple")
+        elif u < 0.6:
+            ibands_arg = np.array(ibands, dtype=[int, np.int32][int(rng.integers(2))])
+            ctx.count("ibands_array")
     kbs = sorted({1, 2, 3, 5, 7, 10, 50, max(1, npts - 1), npts, npts + 1, int(rng.integers(1, 51))})
     kb = int(kbs[int(rng.integers(len(kbs)))])
     nbatch = -(-npts // kb)
@@ -478,7 +825,13 @@ def tabulation_subcase(ctx, rng, state, system, path, K, info, wit0, has_AA):
 
     # the oracle: every point alone
     allnames = names + extras
-    oracle = pointwise_oracle(wb, tab, system, K, allnames, ibands, has_AA)
+    if ibands is not None and rng.random() < 0.5:
+        # all bands evaluated, the columns picked by the harness (does not rely on the band selection of the tabulators)
+        full = pointwise_oracle(wb, tab, system, K, allnames, None, has_AA)
+        oracle = {n: v[:, list(ibands)] for n, v in full.items()}
+        ctx.count("oracle_columns_selected_by_harness")
+    else:
+        oracle = pointwise_oracle(wb, tab, system, K, allnames, ibands, has_AA)
     if ibands is None and names:
         # ... and through the documented single-point shortcut with the named quantities
         for i in sorted(set(int(x) for x in rng.integers(0, npts, size=3))):
@@ -488,19 +841,44 @@ def tabulation_subcase(ctx, rng, state, system, path, K, info, wit0, has_AA):
                           scale=np.abs(oracle[n]).max(), what=f"{n} at point {i}", witness=wit)
 
     # the code under test
-    if entry == "evaluate_k_path" and ibands is None:
-        res = wb.evaluate_k_path(system, path=path, quantities=names, tabulators=fresh_tabulators(tab, extras, None, has_AA),
-                                 ibands=None, parallel=False, k_batch=kb)
+    tabs = None
+    if entry == "evaluate_k_path" and (ibands is None or rng.random() < 0.5):
+        tabs = fresh_tabulators(tab, extras, None, has_AA)
+        qarg = list(names) if rng.random() < 0.6 else tuple(names)
+        u = rng.random()
+        if u < 0.25:
+            ret = wb.evaluate_k_path(system, path=path, quantities=qarg, tabulators=tabs, ibands=ibands_arg, parallel=False,
+                                     k_batch=kb, return_path=True)
+            ctx.ev()
+            if not (isinstance(ret, tuple) and len(ret) == 2 and ret[0] is path):
+                ctx.violation("evaluate_k_path(return_path=True)_does_not_return_(path,result)", f"returned {type(ret)}", wit)
+                return wit
+            res = ret[1]
+            ctx.count("return_path_true_with_path")
+        elif u < 0.4:
+            res = wb.evaluate_k_path(system, path=path, quantities=qarg, tabulators=tabs, ibands=ibands_arg, parallel=False,
+                                     k_batch=kb, return_path=False)
+        else:
+            res = wb.evaluate_k_path(system, path=path, quantities=qarg, tabulators=tabs if (extras or rng.random() < 0.5)
+                                     else None, ibands=ibands_arg, parallel=False, k_batch=kb)
+        if ibands is not None:
+            ctx.count("named_quantities_with_ibands")
     else:
-        # named quantities with a band subset go through fresh objects here (the shared ones: see leak_subcase)
+        # named quantities as fresh objects
         tabs = fresh_tabulators(tab, allnames, None, has_AA)
         if entry == "evaluate_k_path":
-            res = wb.evaluate_k_path(system, path=path, tabulators=tabs, ibands=ibands, parallel=False, k_batch=kb)
+            res = wb.evaluate_k_path(system, path=path, tabulators=tabs, ibands=ibands_arg, parallel=False, k_batch=kb)
         else:
-            tall = tab.TabulatorAll(tabs, ibands=ibands, mode="path")
+            tall = tab.TabulatorAll(tabs, ibands=ibands_arg, mode=("path", "PATH", "Path")[int(rng.integers(3))])
             kw = dict(use_irred_kpt=False) if rng.random() < 0.5 else {}
+            if rng.random() < 0.3:
+                kw["symmetrize"] = bool(rng.random() < 0.5)
             res = wb.run(system, grid=path, calculators={"tabulate": tall}, parallel=False, k_batch=kb, **kw).results[
                 "tabulate"]
+    ctx.ev()
+    if not hasattr(res, "get_data"):
+        ctx.violation("evaluate_k_path(path=...)_does_not_return_the_result_alone", f"returned {type(res)}", wit)
+        return wit
     ctx.count(f"entry_{entry}")
     ctx.count("k_batch_multi" if nbatch > 1 else "k_batch_single")
     compare_tab(ctx, res, oracle, K, system, ibands, good, a0, "path_tabulation", wit)
@@ -508,6 +886,9 @@ def tabulation_subcase(ctx, rng, state, system, path, K, info, wit0, has_AA):
         ctx.count("tab_revisit_paths")
     if info.get("gshift"):
         ctx.count("tab_gshift_paths")
+    get_data_subcase(ctx, rng, res, oracle, K, good, a0, wit)
+    if rng.random() < 0.35:
+        second_request_subcase(ctx, rng, state, system, path, K, res, tabs, oracle, ibands, ibands_arg, good, a0, has_AA, wit)
 
     # batches concatenated in another order, then TABresult.self_to_path (what a parallel completion order produces)
     if npts >= 3 and rng.random() < 0.6:
@@ -521,9 +902,13 @@ def tabulation_subcase(ctx, rng, state, system, path, K, info, wit0, has_AA):
             chunks.append(wb.run(system, grid=sub, calculators={"tabulate": tall}, parallel=False,
                                  k_batch=int(rng.integers(1, 8))).results["tabulate"])
         perm = rng.permutation(len(chunks))
-        tot = None
-        for j in perm:
-            tot = chunks[j] if tot is None else tot + chunks[j]
+        if rng.random() < 0.3:
+            tot = sum(chunks[j] for j in perm)
+            ctx.count("chunks_joined_by_sum")
+        else:
+            tot = None
+            for j in perm:
+                tot = chunks[j] if tot is None else tot + chunks[j]
         tot.self_to_path(path)
         ctx.count("self_to_path_permuted")
         compare_tab(ctx, tot, oracle, K, system, ibands, good, a0, "self_to_path(permuted batches)",
@@ -589,33 +974,115 @@ def leak_subcase(ctx, rng, state, system, path, K, has_AA, wit0):
         ctx.violation(LEAK_MECH, f"evaluate_k_path(quantities=['energy']) {after} raises {type(e).__name__}: {e}", wit)
 
 
+def compare_tab_sampled(ctx, rng, state, system, res, K, names, has_AA, tag, wit, extra_rows=()):
+    """long paths: points and energies of every row, the other quantities at sampled rows (first, last, batch borders, random)"""
+    from wannierberri.calculators import tabulate as tab
+    K = np.asarray(K)
+    npts = len(K)
+    a0 = float(np.mean(np.linalg.norm(system.real_lattice, axis=1)))
+    ctx.close(f"{tag}:kpoints!=path.K_list", np.asarray(res.kpoints), K, rtol=0, atol=1e-12 * max(1, np.abs(K).max()),
+              what="TABresult.kpoints", witness=wit)
+    E = gen_systems.bands(system, K)
+    ctx.close(f"{tag}:Energy!=independent_diagonalisation", res.get_data("Energy"), E, rtol=1e-10,
+              scale=np.abs(E).max(), atol=1e-12, what="Energy along the path", witness=wit)
+    ctx.count("tab_energy_vs_diag")
+    rows = sorted(set([0, npts - 1] + [int(r) for r in extra_rows if 0 <= r < npts] + [int(x) for x in rng.integers(0, npts, 5)]))
+    good = np.ones(len(rows), dtype=bool) if system.num_wann == 1 else (np.diff(E[rows], axis=1).min(axis=1) > GAP_GUARD)
+    oracle = pointwise_oracle(state["wb"], tab, system, K[rows], names, None, has_AA)
+    for q, ref in oracle.items():
+        got = np.asarray(res.get_data(q))
+        if got.shape[1:] != ref.shape[1:] or got.shape[0] != npts:
+            ctx.ev()
+            ctx.violation(f"{tag}:row_i!=evaluate_k(K_i)", f"{q}: shape {got.shape} for {npts} points", wit)
+            continue
+        sel = np.ones(len(rows), dtype=bool) if NATURAL[q] == 0 else good
+        if not np.any(sel):
+            continue
+        ctx.close(f"{tag}:row_i!=evaluate_k(K_i)", got[rows][sel], ref[sel], rtol=1e-9, scale=float(np.abs(ref[sel]).max()),
+                  atol=1e-9 * a0 ** NATURAL[q], what=f"quantity {q} at rows {rows}", witness=wit)
+        ctx.count("tab_rows_vs_evaluate_k", int(sel.sum()))
+
+
+def big_tab_subcase(ctx, rng, state, system, recip, has_AA):
+    """paths of >= 100 points whose length is a multiple of the batch size (or one more / one less)"""
+    wb = state["wb"]
+    from wannierberri.grid import Path
+    kb = int((50, 25, 20, 10)[int(rng.integers(4))])
+    nbat = int(rng.integers(2, 5))
+    npts = max(100, kb * nbat) + int((0, 0, 1, -1)[int(rng.integers(4))])
+    nodes = [rng.uniform(-1.0, 1.5, 3) for _ in range(3)]
+    n1 = int(rng.integers(3, npts - 3))
+    n2 = npts - n1 + 1                     # n1 + n2 - 1 points, or n1 + n2 with a break in between
+    withbreak = bool(rng.random() < 0.4)
+    if withbreak:
+        nd = [nodes[0], nodes[1], None, nodes[1] + rng.integers(-1, 2, 3), nodes[2]]
+        n2 -= 1
+        labels = ["A", "B", "B'", "C"]
+    else:
+        nd = [nodes[0], nodes[1], nodes[2]]
+        labels = ["A", "B", "C"]
+    path = Path.from_nodes(system, nodes=copy_nodes(nd), labels=list(labels), nk=[n1, n2])
+    K_exp, lab_exp, br_exp = expected_path(nd, labels, [n1, n2])
+    wit = dict(nodes=[None if n is None else [float(x) for x in n] for n in nd], labels=labels, spec=dict(nk=[n1, n2]),
+               k_batch=kb, path_points=npts, entry="evaluate_k_path (long path)")
+    if len(K_exp) != npts or not verify_path(ctx, path, K_exp, lab_exp, br_exp, recip, "from_nodes", wit):
+        return
+    names = ["energy", "band_gradients"]
+    res = wb.evaluate_k_path(system, path=path, quantities=names, parallel=False, k_batch=kb)
+    borders = [b + d for b in range(kb, npts, kb) for d in (-1, 0)]
+    compare_tab_sampled(ctx, rng, state, system, res, K_exp, names, has_AA, "path_tabulation", wit, extra_rows=borders)
+    ctx.count("tab_npts_ge_100")
+    if npts % kb == 0:
+        ctx.count("tab_npts_multiple_of_k_batch")
+    ctx.nontrivial(("tab_big", kb, npts % kb == 0, withbreak, system.num_wann))
+
+
 # ------------------------------------------------------------------ the case ------------------
 
 def case(ctx, rng, idx, state):
     from wannierberri.grid import Path
     # ---- construction only (cheap): several node lists on bare lattices
     ncons = 6
-    for _ in range(ncons):
+    for icons in range(ncons):
         lattice = gen_systems.random_lattice(rng) if rng.random() < 0.7 else gen_systems.bravais_lattice(rng)[1]
         recip = recip_of(lattice)
-        how = ["real_lattice", "recip_lattice"][int(rng.integers(2))]
+        how = ["real_lattice", "recip_lattice", "pointgroup"][int(rng.integers(3))]
+        cls = "plain"
+        kwc = dict(maxpts=80)
+        if icons == 0 and idx % 3 == 0:
+            cls, kwc = "big", dict(maxpts=int(rng.integers(200, 900)), big=True, maxnodes=3)    # segments of >= 100 points
+        elif icons == 0 and idx % 3 == 1:
+            cls, kwc = "many_nodes", dict(maxpts=400, maxnodes=40, minnodes=15)
         try:
-            out = construction_subcase(ctx, rng, Path, lattice, recip, how, maxpts=80)
+            out = construction_subcase(ctx, rng, Path, lattice, recip, how, **kwc)
         except harness.Skip as s:
             ctx.skip(s.reason)
             continue
         if out is None:
             continue
         path, K_exp, lab_exp, br_exp, info, wit = out
+        ctx.count(f"cons_{cls}")
+        if rng.random() < 0.35:
+            # the same path reached through an explicit k-list / as_dict / npz before it is refined
+            rb = rebuilt_path(ctx, rng, Path, path, K_exp, lab_exp, br_exp, recip, wit)
+            if rb is None:
+                continue
+            path, route, wit = rb
+            info = dict(info, kind=info["kind"] + "+" + route)
         r = refinement_subcase(ctx, rng, path, K_exp, lab_exp, br_exp, recip, wit)
         if info["npts"] >= 3:
-            ctx.nontrivial(("cons", info["kind"], info["nnodes"], info["nbreaks"], info["revisit"], info["gshift"],
-                            None if r is None else r[4]))
+            ctx.nontrivial(("cons", info["kind"], min(info["nnodes"], 8), min(info["nbreaks"], 4), info["revisit"], info["gshift"],
+                            None if r is None else min(r[4], 6), cls))
     # ---- seekpath wrapper
     sp_out = None
     if rng.random() < 0.5:
         try:
             sp_out = seekpath_subcase(ctx, rng, Path)
+        except harness.Skip as s:
+            ctx.skip(s.reason)
+    if rng.random() < 0.3:
+        try:
+            seekpath_flat_subcase(ctx, rng, Path)
         except harness.Skip as s:
             ctx.skip(s.reason)
 
@@ -631,9 +1098,13 @@ def case(ctx, rng, idx, state):
         lattice = sp_out[2]
     else:
         lattice = gen_systems.random_lattice(rng)
+    two_d = bool((not use_sp) and rng.random() < 0.15)
+    if two_d:
+        ctx.count("tab_2d_system")
     system = gen_systems.herm_system(rng, num_wann=nw, lattice=lattice, radius=rng.uniform(1.0, 2.2), keys=keys,
                                      centers=["random", "outside", "zero"][int(rng.integers(3))],
-                                     spinor=True if has_SS else None)
+                                     spinor=True if has_SS else None,
+                                     periodic=(True, True, False) if two_d else (True, True, True))
     system, hist = gen_systems.history_variant(rng, system, which=gen_systems.HISTORIES_NO_DISK[idx % 4])   # state reached through the API first
     ctx.count(f"history_{hist}")
     recip = recip_of(lattice)
@@ -662,18 +1133,45 @@ def case(ctx, rng, idx, state):
             path = Path(system, k_list=K.copy(), labels=dict(lab_exp), breaks=list(br_exp))
             info = dict(info, kind=info["kind"] + "+k_list")
             ctx.count("tab_on_k_list_path")
+        elif u < 0.52:
+            # the path went through as_dict / npz / an explicit k-list with numpy keys first (it then knows the lattice only)
+            rb = rebuilt_path(ctx, rng, Path, path, K, lab_exp, br_exp, recip, wit)
+            if rb is None:
+                return
+            path, route, wit = rb
+            info = dict(info, kind=info["kind"] + "+" + route)
+            ctx.count("tab_on_rebuilt_path")
+        elif u < 0.6:
+            # not built from nodes at all: points on a sphere (the rows must still be the points alone)
+            nth, nph = int(rng.integers(2, 6)), int(rng.integers(2, 7))
+            org = None if rng.random() < 0.5 else rng.uniform(-0.5, 0.5, 3)
+            path = Path.sphere(system, r1=float(rng.uniform(0.05, 0.6)), ntheta=nth, nphi=nph, origin=org)
+            info = dict(kind="sphere", nnodes=nth, nbreaks=nph, revisit=True, gshift=False)
+            wit = dict(path="sphere", K_list=np.array(path.K_list))
+            ctx.count("tab_on_sphere")
     K = np.array(path.K_list, dtype=float)  # verified above against the expectation
     if len(K) > 75:
         raise harness.Skip("path too long for the tabulation budget")
+    if rng.random() < 0.3:
+        # the path object was used before: listed, printed, batched, refined
+        path.getKline()
+        str(path)
+        path.str_short
+        path.get_K_list(k_batch=int(rng.integers(1, 9)))
+        path.get_refined(2)
+        ctx.count("tab_on_used_path")
     w = tabulation_subcase(ctx, rng, state, system, path, K, info, wit, has_AA)
+    if idx % 6 == 5:
+        big_tab_subcase(ctx, rng, state, system, recip, has_AA)
     if rng.random() < 0.35:
         leak_subcase(ctx, rng, state, system, path, K, has_AA, wit)
     # evaluate_k_path building the path itself from nodes/labels/length
     if rng.random() < 0.3:
-        nodes, flags = gen_nodes(rng, maxnodes=4)
+        default_length = bool(rng.random() < 0.2)
+        nodes, flags = gen_nodes(rng, maxnodes=2 if default_length else 4)
         L = segment_lengths(nodes, recip)
         Lpos = [x for x in L if x > 1e-9]
-        dk = (np.mean(Lpos) if Lpos else 1.0) / rng.uniform(1.5, 5.0)
+        dk = 2 * np.pi / 500 if default_length else (np.mean(Lpos) if Lpos else 1.0) / rng.uniform(1.5, 5.0)
         ns = []
         for x in L:
             rr = x / dk
@@ -682,13 +1180,38 @@ def case(ctx, rng, idx, state):
             ns.append(max(2, int(np.floor(rr + 0.5)) + 1))
         nreal = sum(1 for n in nodes if n is not None)
         labels = [LABELS[int(rng.integers(len(LABELS)))] for _ in range(nreal)]
-        p2, res2 = state["wb"].evaluate_k_path(system, nodes=nodes, labels=list(labels), length=float(2 * np.pi / dk),
-                                               quantities=["energy", "band_gradients"], parallel=False,
-                                               k_batch=int(rng.integers(1, 51)))
+        kwl = {} if default_length else dict(length=float(2 * np.pi / dk))
+        u = rng.random()
+        if default_length:
+            ctx.count("evaluate_k_path_default_length")
+        if u < 0.25:
+            kwl["return_path"] = True
+        elif u < 0.4:
+            kwl["return_path"] = False
+        ret = state["wb"].evaluate_k_path(system, nodes=copy_nodes(nodes), labels=list(labels), **kwl,
+                                          quantities=["energy", "band_gradients"], parallel=False,
+                                          k_batch=int(rng.integers(1, 51)))
         K2, lab2, br2 = expected_path(nodes, labels, ns)
-        wit2 = dict(nodes=[None if n is None else [float(x) for x in n] for n in nodes], labels=labels,
-                    length=float(2 * np.pi / dk), entry="evaluate_k_path(nodes=...)")
-        if verify_path(ctx, p2, K2, lab2, br2, recip, "evaluate_k_path(nodes)", wit2):
+        wit2 = dict(nodes=[None if n is None else [float(x) for x in n] for n in nodes], labels=labels, node_form=flags["form"],
+                    entry="evaluate_k_path(nodes=...)", **kwl)
+        ctx.ev()
+        if kwl.get("return_path") is False:
+            if not hasattr(ret, "get_data"):
+                ctx.violation("evaluate_k_path(return_path=False)_does_not_return_the_result_alone", f"returned {type(ret)}", wit2)
+                return
+            ctx.count("return_path_false_with_nodes")
+            p2, res2 = Path.from_nodes(system, nodes=copy_nodes(nodes), labels=list(labels), dk=float(dk)), ret
+        else:
+            if not (isinstance(ret, tuple) and len(ret) == 2 and isinstance(ret[0], Path)):
+                ctx.violation("evaluate_k_path(nodes)_does_not_return_(path,result)", f"returned {type(ret)}", wit2)
+                return
+            p2, res2 = ret
+        if len(K2) > 120:
+            if verify_path(ctx, p2, K2, lab2, br2, recip, "evaluate_k_path(nodes)", wit2):
+                compare_tab_sampled(ctx, rng, state, system, res2, K2, ["energy", "band_gradients"], has_AA,
+                                    "path_tabulation", wit2)
+                ctx.count("evaluate_k_path_from_nodes")
+        elif verify_path(ctx, p2, K2, lab2, br2, recip, "evaluate_k_path(nodes)", wit2):
             from wannierberri.calculators import tabulate as tab
             a0 = float(np.mean(np.linalg.norm(system.real_lattice, axis=1)))
             E2 = gen_systems.bands(system, K2)
@@ -711,7 +1234,15 @@ if __name__ == "__main__":
              "without AA / SS) with k_batch in {1..50, n-1, n, n+1}, band subsets, named quantities and tabulators of rank "
              "0-2, through evaluate_k_path and run(); a construction case is non-trivial with >=3 path points, distinct "
              "by (spec kind, #nodes, #breaks, revisit, G-shift, factor); a tabulation by (spec kind, #nodes, #breaks, "
-             "revisit, G-shift, factor, #batches, num_wann, entry point, band subset, AA)",
+             "revisit, G-shift, factor, #batches, num_wann, entry point, band subset, AA); widening review: nodes as "
+             "tuples / integers / one (n,3) array / mixed, labels as tuple / array / iterator, lattice from a pointgroup, "
+             "integer length, nk as numpy integer / iterator, segments of 100-900 points, 15-40 nodes, contradictory specs "
+             "refused, paths rebuilt through k_list (numpy keys, tuple/array breaks) / as_dict / npz (once, twice) before "
+             "refinement and tabulation, factors 1, default, 6-40, seekpath defaults / list cell / orthorhombic, bct, "
+             "monoclinic cells / twoD_direction, ibands unsorted / tuple / array, return_path both ways, default length, "
+             "get_data(iband, component), second request on the same path and with the same tabulator objects (first "
+             "result unchanged), 2D systems, sphere paths, used paths, paths of >= 100 points with k_batch dividing the "
+             "number of points",
         assumptions=["single-point oracle = wannierberri.evaluate_k with freshly built tabulators (the property is "
                      "stated against the evaluation of the point alone); energies also vs numpy eigvalsh of the "
                      "explicit Fourier sum",
@@ -723,5 +1254,17 @@ if __name__ == "__main__":
                            "gshift_paths", "spec_nk_int", "spec_nk_list", "spec_dk", "spec_length",
                            "tab_rows_vs_evaluate_k", "tab_energy_vs_diag", "k_batch_multi", "self_to_path_permuted",
                            "entry_evaluate_k_path", "entry_run", "tab_revisit_paths", "tab_gshift_paths",
-                           "named_quantities_with_ibands"),
+                           "named_quantities_with_ibands",
+                           # widening review: argument forms, histories, re-use, sizes
+                           "nodes_tuple", "nodes_int", "nodes_2darray", "nodes_mixed", "labels_tuple", "labels_array",
+                           "labels_iter", "labels_none", "lattice_from_pointgroup", "spec_length_int",
+                           "segment_ge_100_points", "cons_big", "cons_many_nodes", "contradicting_spec_refused",
+                           "get_kpoints", "npts_multiple_of_k_batch", "rebuilt_k_list", "rebuilt_dict", "rebuilt_npz",
+                           "rebuilt_npz_twice", "refined_factor_1", "refined_default_factor", "refined_large_factor",
+                           "seekpath_default_dk", "seekpath_cell_as_lists", "seekpath_twoD", "ibands_unsorted", "ibands_tuple",
+                           "ibands_array", "oracle_columns_selected_by_harness", "return_path_true_with_path",
+                           "return_path_false_with_nodes", "get_data_iband_component", "second_request_same_tabulators",
+                           "second_request_same_path", "first_result_still_valid", "tab_2d_system", "tab_on_rebuilt_path",
+                           "tab_on_sphere", "tab_on_used_path", "tab_npts_ge_100", "tab_npts_multiple_of_k_batch",
+                           "chunks_joined_by_sum", "evaluate_k_path_default_length"),
     )
